@@ -1663,7 +1663,10 @@ def m_write_fmt(I, st, c, args, body, t):
                                          % (line, pv.lo, pv.hi, p.get("trait"), top))
             if text and p.get("prec") is not None and not (pv.skind == "lit" and pv.text == ""):
                 cur = cur.with_issue("line %s: text is cut off by a precision (.%s) - a longer value is shown incompletely" % (line, p.get("prec")))
-            if text and p.get("align") == ">" and not (isinstance(pv, StrV) and pv.skind == "lit" and pv.text == ""):
+            numtext = isinstance(pv, StrV) and pv.skind == "numtext"
+            if numtext and p.get("align") in (None, "<") and isinstance(w, int) and w > 1:
+                cur = cur.with_issue("line %s: a number (formatted into a string first) is left-aligned in its column" % line)
+            if text and not numtext and p.get("align") == ">" and not (isinstance(pv, StrV) and pv.skind == "lit" and pv.text == ""):
                 cur = cur.with_issue("line %s: text is right-aligned" % line)
             cur = cur.append(w, srcs)
     if isinstance(sink, RefV):
